@@ -370,6 +370,81 @@ func constructors(r *lib.Report, states, trans *int64) {
 	}
 }
 
+// payloadStreams: what a stream carries is opaque to it except where an operation is defined on values
+// (FilterNotNil drops nil and nil pointers, Distinct / Contains / RemoveItem compare with ==): the payload
+// table through the interface{} stream, nil and distinct-but-equal pointers through StreamDef[*int].
+func payloadStreams(r *lib.Report, states, trans *int64) {
+	bad := func(clause, format string, a ...interface{}) {
+		r.Violation("C04|payload-stream|"+clause, fmt.Sprintf(format, a...), nil)
+	}
+	show := func(l []interface{}) string {
+		var p []string
+		for _, v := range l {
+			p = append(p, lib.Show(v))
+		}
+		return "[" + strings.Join(p, " ") + "]"
+	}
+	pay := lib.Payloads()
+	*states++
+	*trans += 8
+	p := lib.Catch(func() {
+		s := fpgo.StreamForInterface.FromArray(append([]interface{}{}, pay...))
+		var notNil, rev, dist []interface{}
+		for _, v := range pay {
+			if v != nil && v != interface{}((*int)(nil)) {
+				notNil = append(notNil, v)
+			}
+		}
+		for i := len(pay) - 1; i >= 0; i-- {
+			rev = append(rev, pay[i])
+		}
+		for i, v := range pay {
+			dup := false
+			for _, w := range pay[:i] {
+				if w == v {
+					dup = true
+				}
+			}
+			if !dup {
+				dist = append(dist, v)
+			}
+		}
+		if got := s.FilterNotNil().ToArray(); show(got) != show(notNil) {
+			bad("FilterNotNil", "FilterNotNil over the payload table keeps %s, want %s", show(got), show(notNil))
+		}
+		if got := s.Reverse().ToArray(); show(got) != show(rev) {
+			bad("Reverse", "Reverse over the payload table gives %s", show(got))
+		}
+		if got := s.Distinct().ToArray(); len(got) != len(dist) {
+			bad("Distinct", "Distinct over the payload table keeps %s, want the first occurrences under ==: %s", show(got), show(dist))
+		}
+		for i, v := range pay {
+			if !s.Contains(v) || lib.Show(s.Get(i)) != lib.Show(v) {
+				bad("Contains", "the stream of the payload table: Contains(%s)=%v, Get(%d)=%s", lib.Show(v), s.Contains(v), i, lib.Show(s.Get(i)))
+			}
+		}
+		if got := s.RemoveItem(nil, lib.P1).ToArray(); len(got) != len(pay)-2 {
+			bad("RemoveItem", "RemoveItem(nil, P1) over the payload table leaves %s", show(got))
+		}
+		if show(s.ToArray()) != show(pay) {
+			bad("disturbed", "the stream of the payload table changed to %s", show(s.ToArray()))
+		}
+		g := fpgo.StreamFromArray([]*int{lib.P1, nil, lib.P2, nil, lib.P1})
+		if got := g.FilterNotNil().ToArray(); len(got) != 3 || got[0] != lib.P1 || got[1] != lib.P2 || got[2] != lib.P1 {
+			bad("FilterNotNil", "StreamDef[*int] [P1 nil P2 nil P1].FilterNotNil() = %v", got)
+		}
+		if got := g.Distinct().ToArray(); len(got) != 3 {
+			bad("Distinct", "StreamDef[*int] [P1 nil P2 nil P1].Distinct() has %d elements, want 3 (P1, nil, P2: equal pointees are different elements)", len(got))
+		}
+		if got := g.RemoveItem(lib.P2).ToArray(); len(got) != 4 {
+			bad("RemoveItem", "StreamDef[*int] [P1 nil P2 nil P1].RemoveItem(P2) has %d elements, want 4", len(got))
+		}
+	})
+	if p != "" {
+		bad("panic", "operations over payload streams: %s", p)
+	}
+}
+
 // distinctStreams: every key of a freshly constructed stream set has an empty stream of its own.
 func distinctStreams(ctor string, l []int, bad func(ctor, clause, format string, a ...interface{}), get func(k int) interface{}) {
 	seen := map[string]int{}
